@@ -61,6 +61,9 @@ type guardSite struct {
 	Args map[string][]int
 	// Slices: render the bounds of every slice expression `x[lo:hi]` of the function (an absent bound is -1)
 	Slices bool
+	// Updates: for each of these local variables, every assignment to it in source order as
+	// (keep, delta): `x = e` is (0, e), `x += e` is (1, e), `x++` is (1, 1) — the new value is keep*old + delta
+	Updates []string
 	// OnlyRets: write only the `_returns` / `_args` definitions (the site's conditions are written elsewhere)
 	OnlyRets bool
 }
@@ -90,6 +93,7 @@ type guardTr struct {
 	shifts   []string               // every shift count a << k
 	loopInit []string               // initial value of the loop variable of every `for i := e; …`
 	loops    []string    // loop conditions
+	updates  map[string][]string   // Updates: variable -> "(keep, delta)" per assignment
 	slices   []string              // Slices: "[lo, hi]" per slice expression, in source order
 	rets     []retCase             // Rets: condition of a success return -> rendered results
 	args     map[string][]retCase  // Args: callee -> (path condition, rendered arguments) per call
@@ -436,6 +440,48 @@ func (tr *guardTr) update(name, delta string) {
 	tr.setOpaque(name)
 }
 
+func (tr *guardTr) tracked(name string) bool {
+	for _, u := range tr.site.Updates {
+		if u == name {
+			if tr.updates == nil {
+				tr.updates = map[string][]string{}
+			}
+			return true
+		}
+	}
+	return false
+}
+
+// recordUpdate: assignments to the variables named by Updates. The right-hand side is rendered with
+// the variable itself opaque (it must be a declared parameter of the site or not occur).
+func (tr *guardTr) recordUpdate(s *ast.AssignStmt) {
+	if len(tr.site.Updates) == 0 {
+		return
+	}
+	for i, l := range s.Lhs {
+		id, ok := l.(*ast.Ident)
+		if !ok || !tr.tracked(id.Name) {
+			continue
+		}
+		if len(s.Lhs) != len(s.Rhs) {
+			// `x, err = f()`: the value comes from a call
+			tr.updates[id.Name] = append(tr.updates[id.Name], "(0, untranslated_call_result)")
+			continue
+		}
+		v, _ := tr.intExpr(s.Rhs[i])
+		switch s.Tok {
+		case token.ASSIGN, token.DEFINE:
+			tr.updates[id.Name] = append(tr.updates[id.Name], "(0, "+v+")")
+		case token.ADD_ASSIGN:
+			tr.updates[id.Name] = append(tr.updates[id.Name], "(1, "+v+")")
+		case token.SUB_ASSIGN:
+			tr.updates[id.Name] = append(tr.updates[id.Name], "(1, (-"+v+"))")
+		default:
+			tr.updates[id.Name] = append(tr.updates[id.Name], "(0, untranslated_assignment)")
+		}
+	}
+}
+
 // sliceBounds: the bounds of the slice expressions of one statement (not of the blocks nested in
 // it: those are visited as statements of their own), with the values the locals have there
 func (tr *guardTr) sliceBounds(st ast.Stmt) {
@@ -526,6 +572,7 @@ func (tr *guardTr) walk(b *ast.BlockStmt, path string, top bool) {
 			for _, r := range s.Rhs {
 				tr.callArgs(r, path)
 			}
+			tr.recordUpdate(s)
 			if (s.Tok == token.ADD_ASSIGN || s.Tok == token.SUB_ASSIGN) && len(s.Lhs) == 1 && len(s.Rhs) == 1 {
 				op := " + "
 				if s.Tok == token.SUB_ASSIGN {
@@ -547,6 +594,13 @@ func (tr *guardTr) walk(b *ast.BlockStmt, path string, top bool) {
 			}
 		case *ast.IncDecStmt:
 			if id, ok := s.X.(*ast.Ident); ok {
+				if tr.tracked(id.Name) {
+					d := "1"
+					if s.Tok == token.DEC {
+						d = "(-1)"
+					}
+					tr.updates[id.Name] = append(tr.updates[id.Name], "(1, "+d+")")
+				}
 				if s.Tok == token.INC {
 					tr.update(id.Name, " + 1")
 				} else {
@@ -922,6 +976,9 @@ func genGuardFile(file string, sites []guardSite) {
 				id := regexp.MustCompile(`[^A-Za-z0-9]+`).ReplaceAllString(c, "_")
 				fmt.Fprintf(&sb, "/-- every call of `%s`, in source order: the condition of the branch it sits in and its integer arguments at positions %v -/\ndef %s_args_%s%s : List (Bool × List Int) := %s\n\n", c, s.Args[c], s.Name, id, params, leanBoolList(rows))
 			}
+		}
+		for _, u := range s.Updates {
+			fmt.Fprintf(&sb, "/-- every assignment to `%s`, in source order, as (keep, delta): the new value is keep * old + delta -/\ndef %s_updates_%s%s : List (Int × Int) := %s\n\n", u, s.Name, u, params, leanBoolList(tr.updates[u]))
 		}
 		if s.Slices {
 			fmt.Fprintf(&sb, "/-- the bounds `[lo, hi]` of every slice expression `x[lo:hi]` of the function, in source order (-1: absent) -/\ndef %s_slices%s : List (List Int) := %s\n\n", s.Name, params, leanBoolList(tr.slices))
